@@ -23,7 +23,7 @@ pub fn property() -> Property {
         parts: vec![
             Part {
                 name: "well_formed",
-                quick: 50_000,
+                quick: 150_000,
                 thorough: 2_000_000,
                 single_shard: false, supplementary: false,
                 run: |cfg| run_part(cfg, ast_strategy(), |a| a.clone(), check_well_formed),
@@ -39,7 +39,7 @@ pub fn property() -> Property {
             },
             Part {
                 name: "ill_formed",
-                quick: 50_000,
+                quick: 150_000,
                 thorough: 2_000_000,
                 single_shard: false, supplementary: false,
                 run: |cfg| run_part(cfg, (ast_strategy(), 0..N_FAULTS, any::<u32>(), any::<u32>()), |(a, c, x, y)| faulty(a, *c, *x, *y), check_ill_formed),
@@ -47,7 +47,7 @@ pub fn property() -> Property {
             },
             Part {
                 name: "total",
-                quick: 100_000,
+                quick: 300_000,
                 thorough: 4_000_000,
                 single_shard: false, supplementary: false,
                 run: |cfg| run_part(cfg, total_strategy(), |s| Line { text: s.clone() }, check_total),
